@@ -189,6 +189,8 @@ pub struct World {
     pub wake_delay_us: u64,
     /// see `BrokerAct::TimerLatency`
     pub timer_latency_us: u64,
+    /// packets the broker sends straight behind its next successful CONNACK
+    pub pipelined: Vec<SPacket>,
     /// this case's transports deliver to the broker only what has been flushed
     pub buffered: bool,
     /// (conn, packet index) of complete client packets written but not yet flushed
@@ -218,6 +220,7 @@ impl World {
             timer_latency_us: 0,
             // one case in three runs on a transport that keeps what it was given until flush() is
             // called (a buffered writer): the broker sees nothing of a packet before that
+            pipelined: Vec::new(),
             buffered: seed.wrapping_mul(0x9E37_79B9_7F4A_7C15).rotate_left(17) % 3 == 0,
             unflushed: Vec::new(),
         }))
@@ -477,8 +480,13 @@ impl World {
                         }
                         self.conns[conn].connack_sent = Some((sp, reason, props.clone()));
                         self.send_now(conn, SPacket::ConnAck { sp, reason, props });
+                        let queued = std::mem::take(&mut self.pipelined);
                         if reason != 0 {
                             self.conns[conn].close_after_drain = true;
+                        } else {
+                            for p in queued {
+                                self.send_now(conn, p);
+                            }
                         }
                     }
                     ConnackSpec::Raw(bytes) => self.send_raw(conn, bytes),
